@@ -89,6 +89,18 @@ Proof.
   apply name_idx_inj in Ej. subst j. apply in_seq in Hj. lia.
 Qed.
 
+(* MSH-1 and MSH-2 are ST leaves *)
+Definition st_leafb (row : srow) : bool :=
+  match row_ref t row with
+  | Some (SLeaf i) => match i_dt i with Some d => streqb d (unbs "ST") | None => false end
+  | _ => false
+  end.
+Definition msh_okb : bool :=
+  match slookup (unbs "MSH") (t_segments t) with
+  | Some (SSeqIn false (r1 :: r2 :: _) None) => st_leafb r1 && st_leafb r2
+  | _ => false
+  end.
+
 (* the whole table: keys are unique, every struct that Wf.v calls good satisfies the (stronger)
    premises of RoundTripSeg.v, segment names are upper case and not Z names.  The expensive part
    (every field row of every segment resolves to a well-formed reference) is Oblig/Wf_v*.v. *)
@@ -98,7 +110,8 @@ Definition seg_tables_ok : bool :=
   forallb (fun p : str * sref => seg_name_okb (fst p) || excluded (fst p)) (t_segments t) &&
   forallb (fun p : str * sref => match snd p with
                                  | SSeqIn _ rows _ => no_extra_fields (fst p) (length rows)
-                                 | _ => true end) (t_segments t).
+                                 | _ => true end) (t_segments t) &&
+  msh_okb.
 
 (* ---- soundness ---- *)
 Hypothesis Hnd : NoDup (map fst (t_structs t)).
@@ -158,17 +171,25 @@ Proof.
     exists D, rows. auto.
 Qed.
 
+Lemma wf_seg_rows_sound sn r : wf_seg t (good_structs t) (sn, r) = true ->
+  exists rows, r = SSeqIn false rows None /\ length sn = 3 /\
+    rows_contiguous sn FIE 1 rows = true /\ (forall row, In row rows -> field_row_ok t row).
+Proof.
+  unfold wf_seg. cbn [fst snd]. destruct r as [i|i|[|] rows [i|]|]; try discriminate.
+  intros H. do 2 (apply andb_prop in H; destruct H as [H ?H]).
+  exists rows. split; [reflexivity|]. split; [now apply Nat.eqb_eq|]. split; [assumption|].
+  intros row Hr. apply wf_field_row_sound. rewrite forallb_forall in H0. now apply H0.
+Qed.
+
 Lemma wf_seg_sound sn r : wf_seg t (good_structs t) (sn, r) = true -> seg_name_okb sn = true ->
   exists rows, r = SSeqIn false rows None /\
     length sn = 3 /\ upper sn = sn /\ streqb sn (unbs "MSH") = false /\ valid_z_segment_name sn = false /\
     rows_contiguous sn FIE 1 rows = true /\ (forall row, In row rows -> field_row_ok t row).
 Proof.
-  unfold wf_seg, seg_name_okb. cbn [fst snd]. destruct r as [i|i|[|] rows [i|]|]; try discriminate.
-  intros H G. do 2 (apply andb_prop in H; destruct H as [H ?H]). do 2 (apply andb_prop in G; destruct G as [G ?G]).
-  exists rows. split; [reflexivity|].
-  split; [now apply Nat.eqb_eq|]. split; [now apply streqb_eq|]. split; [now apply negb_true_iff|].
-  split; [now apply negb_true_iff|]. split; [assumption|].
-  intros row Hr. apply wf_field_row_sound. rewrite forallb_forall in H0. now apply H0.
+  intros H G. destruct (wf_seg_rows_sound sn r H) as [rows [-> [H3 [Hc Hr]]]].
+  unfold seg_name_okb in G. do 2 (apply andb_prop in G; destruct G as [G ?G]).
+  exists rows. split; [reflexivity|]. split; [exact H3|]. split; [now apply streqb_eq|].
+  split; [now apply negb_true_iff|]. split; [now apply negb_true_iff|]. split; assumption.
 Qed.
 
 (* Wf.report_ok: every segment other than the wildcard is well formed *)
@@ -204,7 +225,7 @@ Lemma shipped_segment_ok v t sn r : tables_of v = Some t -> In (sn, r) (t_segmen
 Proof.
   intros Ht Hi Ha Hm.
   pose proof (lookup_forallb (fun _ x => seg_tables_ok x) all_tables v t all_seg_tables_ok Ht) as F.
-  unfold seg_tables_ok in F. apply andb_prop in F. destruct F as [F FX].
+  unfold seg_tables_ok in F. apply andb_prop in F. destruct F as [F _]. apply andb_prop in F. destruct F as [F FX].
   do 3 (apply andb_prop in F; destruct F as [F ?F]).
   apply nodupb_streqb_NoDup in F. apply nodupb_streqb_NoDup in F2.
   split; [now apply In_slookup|].
@@ -219,4 +240,36 @@ Proof.
   - rewrite forallb_forall in F0. specialize (F0 _ Hi). cbn [fst] in F0.
     apply orb_prop in F0. destruct F0 as [F0|F0]; [exact F0|exfalso].
     unfold excluded in F0. apply orb_prop in F0. destruct F0 as [E|E]; apply streqb_eq in E; congruence.
+Qed.
+
+Lemma st_leafb_sound t row : st_leafb t row = true ->
+  exists i, row_ref t row = Some (SLeaf i) /\ i_dt i = Some (unbs "ST").
+Proof.
+  unfold st_leafb. destruct (row_ref t row) as [[i|i|? ? ?|]|]; try discriminate.
+  destruct (i_dt i) as [d|] eqn:E; [|discriminate]. intros H. apply streqb_eq in H. subst d. now exists i.
+Qed.
+
+(* the MSH segment of every shipped version *)
+Lemma shipped_msh_ok v t : tables_of v = Some t ->
+  exists srows row1 row2 inf1 inf2,
+    slookup (unbs "MSH") (t_segments t) = Some (SSeqIn false srows None) /\
+    rows_contiguous (unbs "MSH") FIE 1 srows = true /\ (forall row, In row srows -> field_row_ok t row) /\
+    nth_error srows 0 = Some row1 /\ nth_error srows 1 = Some row2 /\
+    row_ref t row1 = Some (SLeaf inf1) /\ row_ref t row2 = Some (SLeaf inf2) /\
+    i_dt inf1 = Some (unbs "ST") /\ i_dt inf2 = Some (unbs "ST").
+Proof.
+  intros Ht.
+  pose proof (lookup_forallb (fun _ x => seg_tables_ok x) all_tables v t all_seg_tables_ok Ht) as F.
+  unfold seg_tables_ok in F. apply andb_prop in F. destruct F as [F FM]. apply andb_prop in F. destruct F as [F _].
+  do 3 (apply andb_prop in F; destruct F as [F ?F]).
+  apply nodupb_streqb_NoDup in F.
+  unfold msh_okb in FM. destruct (slookup (unbs "MSH") (t_segments t)) as [r|] eqn:El; [|discriminate].
+  pose proof (slookup_in _ _ _ El) as Hin.
+  assert (W : wf_seg t (good_structs t) (unbs "MSH", r) = true).
+  { apply (report_ok_seg t (unbs "MSH", r)); [exact (Oblig.WfAll.tables_of_wf v t Ht)|exact Hin|discriminate]. }
+  destruct (wf_seg_rows_sound t F F1 (unbs "MSH") r W) as [srows [-> [_ [Hc Hrows]]]].
+  destruct srows as [|r1 [|r2 rest]]; try discriminate.
+  apply andb_prop in FM. destruct FM as [M1 M2].
+  destruct (st_leafb_sound t r1 M1) as [i1 [R1 D1]]. destruct (st_leafb_sound t r2 M2) as [i2 [R2 D2]].
+  exists (r1 :: r2 :: rest), r1, r2, i1, i2. repeat split; auto.
 Qed.
